@@ -13,6 +13,7 @@ O2  last hop / router: update() on a node with a symbolic frame from F to D in i
     65..191, this hop delivers to the final destination, the delivery was acknowledged and
     the frame is not the node's own; never otherwise (non-last hop, failed delivery, other
     types, NETWORK_ACK frames themselves).
+O5  the origin is also a relay: the awaited NETWORK_ACK sits in the RX FIFO behind a child's frame whose relay needs re-sending.
 O4  multicasts: neither receiving / relaying one of any type nor sending one causes a NETWORK_ACK, and multicast() does not wait.
 """
 from checks.netcommon import *  # noqa
@@ -141,6 +142,39 @@ def o2_last_hop(ctx, role, lvl, lf, ld):
     else:
         ctx.check(len(acks) == 0, "no NETWORK_ACK: other type / not the last hop / delivery failed / own frame / a NETWORK_ACK itself")
     ctx.check(len(queue_frames(node)) == 0, "a routed frame is not handed to the router's application")
+    ctx.reached()
+
+
+def o5_ack_behind_relayed_frame(ctx, lx):
+    """the origin is also a relay: while it waits, a child's frame for somebody else arrives and, right behind it in the RX FIFO,
+    the awaited NETWORK_ACK; the relayed frame's first attempts meet a short outage (so it is re-sent from the TX FIFO).  The
+    NETWORK_ACK did arrive in time, so write() must answer True, and the child's frame must have been forwarded"""
+    from circuitpython_nrf24l01.network.structs import RF24NetworkHeader
+    clock = fresh_env(ctx, tick_ns=1_000_000)
+    radio, node, x = build_node(ctx, clock, "net", lx)
+    d = sym_addr(ctx, "D", ctx.choice("dest_level", 4) + 1)
+    ctx.assume(s_and(d != x, NS.next_hop(x, d) != d))
+    child = x | (ctx.int("child", 1, 5) << (3 * lx))
+    ctx.assume(s_not(NS.is_descendant(d, child)))
+    link, pick = outage_link(ctx, radio, clock, (0, 15, 30, 45), only=lambda i: i == 1)
+    mtype = ctx.int("type", 65, 127)
+    state = {"done": False}
+
+    def on_look():
+        if not state["done"] and len(radio.sent) >= 1 and radio.listening():
+            state["done"] = True
+            # a frame from the child to the master (or, from the master's point of view, to another branch) ...
+            to = s_ite(x == 0, NS.next_hop(x, d), 0)
+            radio.inject_rx(5, [child & 0xFF, child >> 8, to & 0xFF, to >> 8, 7, 0, 3, 0, 0xAB])
+            # ... and right behind it the NETWORK_ACK for the frame this node is waiting for
+            radio.inject_rx(1, [d & 0xFF, d >> 8, x & 0xFF, x >> 8, 1, 0, NETWORK_ACK, 0])
+    clock.on_look = on_look
+    ok = node.send(RF24NetworkHeader(d, mtype), ctx.bytes("body", 2))
+    ctx.check(state["done"], "the scenario was reached (the node waited while listening)")
+    ctx.check(ok == True, "True: a NETWORK_ACK addressed to the sender arrived within route_timeout "  # noqa: E712
+                          "(behind a frame that had to be relayed and re-sent meanwhile)")
+    fw = [e for e in distinct_packets(radio, 1) if (e["data"][0] | (e["data"][1] << 8)) == child]
+    ctx.check(len(fw) == 1, "the child's frame was forwarded once")
     ctx.reached()
 
 
@@ -276,6 +310,8 @@ def jobs(tier):
             out.append(Job("O4-multicasts-never-cause-a-NETWORK_ACK", o4_multicast_never_acked, dict(role=r, lvl=l, relay=relay, side="receiver"), cost=10))
         if r != "routing":
             out.append(Job("O4-multicasts-never-cause-a-NETWORK_ACK", o4_multicast_never_acked, dict(role=r, lvl=l, relay=False, side="sender"), cost=10))
+    for lx in ((1, 2) if tier == "quick" else (0, 1, 2, 3)):
+        out.append(Job("O5-ack-queued-behind-a-relayed-frame", o5_ack_behind_relayed_frame, dict(lx=lx), cost=40, shards=2))
     for r, l, lf, ld in rc:
         out.append(Job("O2-last-hop-acks-once", o2_last_hop, dict(role=r, lvl=l, lf=lf, ld=ld), cost=20, shards=2))
     return out
